@@ -37,17 +37,19 @@ typedef struct { int first; int64_t second; } LockPair;
 static inline int verif_max_int(int a, int b) { return a < b ? b : a; }          /* std::max (VERIF_STUB) */
 static inline int64_t verif_max_i64(int64_t a, int64_t b) { return a < b ? b : a; }
 
-/* block.GetAncestor(h)->GetMedianTimePast(): an uninterpreted function of (block, h) with the range of a median of uint32 timestamps */
+/* block.GetAncestor(h)->GetMedianTimePast() in CalculateSequenceLocks: the ghost array g_anc_mtp[k] IS, by definition, the median time past of
+ * block's ancestor at height max(prevHeights[k] - 1, 0); the stub asserts that the code asks for exactly that height while working on input k
+ * (k = g_cur, recorded at the head of the loop body).  (A plain uninterpreted function cannot be used: loop invariants may not contain calls.) */
 #ifdef VERIF_CBMC
-int64_t __CPROVER_uninterpreted_anc_mtp(const CBlockIndex* block, int h);
+extern const int64_t* g_anc_mtp; extern const int* g_prevheights_ptr; extern size_t g_cur;
 static inline int64_t CBlockIndex_AncestorMTP(const CBlockIndex* block, int h)
 {
     __CPROVER_assert(h >= 0 && h <= block->nHeight, "GetAncestor is asked for a height in [0, block height] (Assert(non-null) in the code)");
-    int64_t v = __CPROVER_uninterpreted_anc_mtp(block, h);
+    __CPROVER_assert((int64_t)h == ((int64_t)g_prevheights_ptr[g_cur] - 1 > 0 ? (int64_t)g_prevheights_ptr[g_cur] - 1 : 0), "the ancestor asked for is the block before the one that confirmed the coin of the current input (height max(h-1,0))");
+    int64_t v = g_anc_mtp[g_cur];
     __CPROVER_assume(v >= 0 && v <= 0xffffffffLL);      /* VERIF_TRUSTED range of GetMedianTimePast (median of uint32 nTime) */
     return v;
 }
-#define ANC_MTP(block, h) __CPROVER_uninterpreted_anc_mtp(block, h)
 /* read of an input array element whose domain is part of the function's precondition (a forall over the array, applied at the point of use) */
 #define VERIF_READ_IN_DOMAIN(expr, lo, hi) ({ __typeof__(expr) v_ = (expr); __CPROVER_assume(v_ >= (lo) && v_ <= (hi)); v_; })
 #else
@@ -56,7 +58,15 @@ int64_t CBlockIndex_AncestorMTP(const CBlockIndex* block, int h);     /* native:
 #endif
 
 /* assert() inside a loop, proved for the arbitrary iteration g_n (equivalent to every iteration) */
-extern size_t g_n;
+extern size_t g_n, g_hwit, g_twit, g_prevheights_size;
+#ifndef VERIF_CBMC
+extern size_t g_cur;
+#endif
+extern CAmount g_value_out, g_cb_value_out;
+extern int g_thrown;
+/* std::max that also records at which loop position (g_cur) the maximum was last raised */
+#define VERIF_MAX_H(a, b) ({ int a_ = (a), b_ = (b); if (a_ < b_) g_hwit = g_cur; a_ < b_ ? b_ : a_; })
+#define VERIF_MAX_T(a, b) ({ int64_t a_ = (a), b_ = (b); if (a_ < b_) g_twit = g_cur; a_ < b_ ? b_ : a_; })
 #ifdef VERIF_CBMC
 #define VERIF_ASSERT_AT(i, c) __CPROVER_assert((size_t)(i) != g_n || (c), "assert() in the code holds (at the arbitrary iteration)")
 #else
